@@ -153,9 +153,9 @@ func (e *Env) mapGetPure(st *State, mt types.Type, m, k string) (*Val, string) {
 	in := sel(sel(e.tr.cur(st, e.tr.W.mapDomComp(mt)), m), k)
 	v := &Val{T: mu.Elem()}
 	atoms := e.tr.W.flatten(mu.Elem())
-	for i, c := range e.tr.W.mapValComps(mt) {
-		raw := sel(sel(e.tr.cur(st, c), m), k)
-		v.A = append(v.A, ite(in, raw, zeroOf(atoms[i].Sort)))
+	_ = atoms
+	for _, c := range e.tr.W.mapValComps(mt) {
+		v.A = append(v.A, sel(sel(e.tr.cur(st, c), m), k))
 	}
 	return v, in
 }
@@ -282,7 +282,7 @@ func (e *Env) eval(x Expr) *Val {
 		i := e.eval(n.I)
 		switch u := v.T.Underlying().(type) {
 		case *types.Slice:
-			addr := e.tr.elem(v.A[0], add(v.A[1], i.one()))
+			addr := e.tr.at(v.A[0], v.A[1], i.one())
 			if _, isStruct := structOf(u.Elem()); isStruct && !e.tr.W.isOpaqueNamed(u.Elem()) {
 				return &Val{T: types.NewPointer(u.Elem()), A: []string{addr}}
 			}
@@ -529,7 +529,7 @@ func (e *Env) call(n ECall) *Val {
 		return intVal(arg(0).A[0])
 	case "elemaddr":
 		s := arg(0)
-		return intVal(e.tr.elem(s.A[0], add(s.A[1], arg(1).one())))
+		return intVal(e.tr.at(s.A[0], s.A[1], arg(1).one()))
 	case "uf1":
 		return intVal("(uf1 " + arg(0).one() + " " + arg(1).one() + ")")
 	case "uf2":
@@ -550,26 +550,27 @@ func (e *Env) call(n ECall) *Val {
 			old := e.tr.cur(e.old, c)
 			switch n.Fn {
 			case "same":
-				parts = append(parts, eq(cur, old))
+				parts = append(parts, e.tr.sameOn(cur, old, c.Sort, e.allocOld, nil))
 			case "sameAt":
 				for i := 1; i < len(n.Args); i++ {
 					o := arg(i).A[0]
 					parts = append(parts, eq(sel(cur, o), sel(old, o)))
 				}
 			case "sameExcept":
-				t := old
+				var objs []string
 				for i := 1; i < len(n.Args); i++ {
-					o := arg(i).A[0]
-					t = store(t, o, sel(cur, o))
+					objs = append(objs, arg(i).A[0])
 				}
-				parts = append(parts, eq(cur, t))
+				parts = append(parts, e.tr.sameOn(cur, old, c.Sort, e.allocOld, objs))
 			}
 		}
 		return boolVal(and(parts...))
 	case "unchangedHeap":
-		return boolVal(e.tr.unchangedHeap(e.st, e.old, nil))
+		return boolVal(e.tr.unchangedHeap(e.st, e.old, nil, e.allocOld))
 	case "cnt":
 		return e.cnt(n)
+	case "all", "distinctElems":
+		return e.allElems(n)
 	}
 	// pure spec function
 	ps := e.tr.W.C.Pures[pkgKey(e.pkg.Path(), n.Fn)]
@@ -605,7 +606,25 @@ func (e *Env) call(n ECall) *Val {
 }
 
 // unchangedHeap: every registered heap component (not locals, not ghosts unless listed) is equal in both states.
-func (tr *FnCtx) unchangedHeap(st, old *State, except map[string]bool) string {
+// sameOn: the component is unchanged on every object that existed when the old state was taken
+// (objects allocated since may differ), except the listed objects.
+func (tr *FnCtx) sameOn(cur, old, sort, allocOld string, except []string) string {
+	if cur == old {
+		return "true"
+	}
+	if !strings.HasPrefix(sort, "(Array") {
+		return eq(cur, old)
+	}
+	tr.n++
+	x := fmt.Sprintf("fx_%d", tr.n)
+	cond := isOldAddr(x, allocOld)
+	for _, o := range except {
+		cond = and(cond, not(eq(x, o)))
+	}
+	return "(forall ((" + x + " Int)) (! (=> " + cond + " (= (select " + cur + " " + x + ") (select " + old + " " + x + "))) :pattern ((select " + cur + " " + x + "))))"
+}
+
+func (tr *FnCtx) unchangedHeap(st, old *State, except map[string]bool, allocOld string) string {
 	if st.Gen != old.Gen {
 		return "false"
 	}
@@ -618,7 +637,7 @@ func (tr *FnCtx) unchangedHeap(st, old *State, except map[string]bool) string {
 			continue
 		}
 		c := Comp{k, tr.comps[k]}
-		parts = append(parts, eq(tr.cur(st, c), tr.cur(old, c)))
+		parts = append(parts, tr.sameOn(tr.cur(st, c), tr.cur(old, c), c.Sort, allocOld, nil))
 	}
 	return and(parts...)
 }
@@ -720,7 +739,7 @@ func (e *Env) cnt(n ECall) *Val {
 		fst := &State{Comps: map[string]string{}, Gen: -1, Formal: map[string]string{}}
 		var elemVal *Val
 		elemT := sl.Elem()
-		addr := "(elem b (+ o (- n 1)))"
+		addr := "(at b o (- n 1))"
 		fe := &Env{tr: e.tr, st: fst, old: fst, pkg: e.pkg, vars: map[string]*Val{}, allocOld: "0"}
 		if _, isStruct := structOf(elemT); isStruct && !e.tr.W.isOpaqueNamed(elemT) {
 			elemVal = &Val{T: types.NewPointer(elemT), A: []string{addr}}
@@ -764,4 +783,52 @@ type cntInfo struct {
 func (c ECall) withVar(e *Env, name string, v *Val) ECall {
 	e.vars[name] = v
 	return c
+}
+
+// all(s, P, extra...): every element of slice s satisfies the pure predicate P(elem, extra...).
+// distinctElems(s): the elements of s are pairwise distinct.
+// Both quantify over element ADDRESSES (not indices), which keeps the facts usable across reslicing.
+func (e *Env) allElems(n ECall) *Val {
+	s := e.eval(n.Args[0])
+	sl, ok := s.T.Underlying().(*types.Slice)
+	if !ok || len(s.A) != 4 {
+		e.fail("%s needs a slice", n.Fn)
+	}
+	inRange := func(a string) string {
+		return and("(< "+a+" 0)", eq("(elemB "+a+")", s.A[0]), "(<= "+s.A[1]+" (elemI "+a+"))", "(< (elemI "+a+") (+ "+s.A[1]+" "+s.A[2]+"))")
+	}
+	elemT := sl.Elem()
+	_, isStruct := structOf(elemT)
+	isStruct = isStruct && !e.tr.W.isOpaqueNamed(elemT)
+	mk := func(a string) (*Val, string) {
+		if isStruct {
+			return &Val{T: types.NewPointer(elemT), A: []string{a}}, "(elemI " + a + ")"
+		}
+		v := e.loadCell(e.st, elemT, a)
+		return v, v.A[0]
+	}
+	e.tr.n++
+	a := fmt.Sprintf("qa_%d", e.tr.n)
+	if n.Fn == "distinctElems" {
+		e.tr.n++
+		b := fmt.Sprintf("qb_%d", e.tr.n)
+		va, pa := mk(a)
+		vb, pb := mk(b)
+		var eqs []string
+		for i := range va.A {
+			eqs = append(eqs, eq(va.A[i], vb.A[i]))
+		}
+		body := implies(and(inRange(a), inRange(b), not(eq(a, b))), not(and(eqs...)))
+		return boolVal("(forall ((" + a + " Int) (" + b + " Int)) (! " + body + " :pattern (" + pa + " " + pb + ")))")
+	}
+	id, ok := n.Args[1].(EIdent)
+	if !ok {
+		e.fail("all(slice, predicate, extra...)")
+	}
+	va, pa := mk(a)
+	args := []Expr{EIdent{"$allelem"}}
+	args = append(args, n.Args[2:]...)
+	ne := e.with(map[string]*Val{"$allelem": va})
+	body := ne.call(ECall{Fn: id.Name, Args: args})
+	return boolVal("(forall ((" + a + " Int)) (! " + implies(inRange(a), body.one()) + " :pattern (" + pa + ")))")
 }
